@@ -13,7 +13,19 @@ Correspondence, within ONE logic and over identifier atoms that are not reserved
   clone   - equal tree, same classes, same language; runtime-only (monitored, the tree model has no heap): no node
             object shared between original and clone (id walk over ALL nodes, leaves and operand lists included) and the
             real criterion "no mutable node shared": every node of the clone is mutated (leaf attribute / operand slot)
-            and the original must keep its tree, and the other way round
+            and the original must keep its tree, and the other way round; a SECOND clone of the same original, taken after the
+            first one was edited all over, is again a new object with the original's tree sharing nothing with the first;
+            a formula that was hashed and is then edited through the public surface (atom `name`, wrap_subformulas, the live
+            list returned by subformulas(): slot overwritten, operand appended) must be ==, hash like and collide with a fresh
+            formula of its CURRENT tree, its clone() must be equal to it, and a fresh formula of its FORMER tree must not be
+  non-ASCII - identifier atoms such as 'tür' / 'tör' / 'tur' (UATOMS; outside the model's `good` predicate, so judged by tree
+            equality alone): all ordered pairs of the atoms and of one operator over them, random formulas with copies,
+            raw copies, near misses and atom exchanges, triples, clones, one dict of all of them
+  lives   - scripts of clone / clone-of-a-subformula / public in-place edits over a small heap of objects that starts with one
+            formula (half of them begin by cloning the same object twice; clones of clones, clones after edits of the
+            original and of earlier clones); after EVERY step every object must be the formula of the tree its history gives
+            it (tree, ==, hash, set/dict against a fresh build; != a fresh build of its former tree), two objects are ==
+            exactly when their trees are, and no two objects share a node
   all-pairs (thorough) - every ordered pair of the depth <= 2 enumeration of each logic through ==, in worker processes
 Across-language pairs are informational coverage only (the property is within one logic)."""
 from common import *
@@ -22,6 +34,12 @@ import collections, multiprocessing
 
 LEVEL = 'proof'
 ATOMS = ('p', 'q', 'Ab', 'AX', 'orb', 'true_', '_x1', 'True', 'False')   # True/False: Python's spellings are NOT reserved words of the logics
+# non-ASCII identifier atoms (str.isidentifier(), not reserved words) next to their ASCII look-alikes: 'replace' / 'ignore' /
+# transliterating / case-folding treatments of the name merge some of them.  The model's `good` predicate covers ASCII
+# identifiers only, so formulas over these atoms are judged by tree equality alone (model-free).
+UATOMS = tuple(a for a in ('t\u00fcr', 't\u00f6r', 'tur', 'tr', 't_r', 'tuer', '\u00e9', '\u00e8', 'e', '\u00c4', '\u00e4', 'B', 'b', '\u00df', 'ss',
+                           '\u03b1', '\u03b2', '\u03b1\u03b2', '\u0434\u0430', '\u0434\u043e', '\u65e5\u672c', '\u65e5\u672c\u8a9e', '\u00f1', 'n', '_\u00fc', '_\u00f6', 'p')
+               if a.isidentifier() and a not in ('A', 'E', 'X', 'F', 'G', 'U', 'R', 'not', 'or', 'and', 'true', 'false'))
 MAXV = 40
 LOGIC_OPS = ('not', 'or', 'and', 'imp')
 
@@ -42,7 +60,7 @@ def enum_logic(L, depth, leaves):
     return [f for f in all_trees(depth, leaves, UNARY, BINARY, NARY) if pymember('CTL', f)]
 
 
-def rand_of(rng, L, d):
+def rand_of(rng, L, d, ATOMS=ATOMS):
     if L == 'PL':
         return rand_pl(rng, d, ATOMS)
     if L == 'CTLS':
@@ -69,10 +87,22 @@ def replace_at(f, path, new):
     return f[:i + 1] + (replace_at(f[i + 1], path[1:], new),) + f[i + 2:]
 
 
+def atoms_of(f):
+    return {g[1] for _, g in positions(f) if g[0] == 'ap'}
+
+
+def rename_atoms(f, ren):
+    if f[0] == 'ap':
+        return ('ap', ren.get(f[1], f[1]))
+    if f[0] in ('true', 'false'):
+        return f
+    return (f[0],) + tuple(rename_atoms(g, ren) for g in f[1:])
+
+
 SWAP = {'or': 'and', 'and': 'or', 'U': 'R', 'R': 'U', 'X': 'F', 'F': 'G', 'G': 'X', 'A': 'E', 'E': 'A'}
 
 
-def near_miss(rng, f, L):
+def near_miss(rng, f, L, ATOMS=ATOMS):
     """a formula of the same logic that differs from f by one small edit (or None)"""
     pos = list(positions(f))
     for _ in range(8):
@@ -210,6 +240,17 @@ def impl_clone(Ln, f, raw=False):
                     leaked.append(i)
                     return dict(obs, mutation_through_clone_reaches_original=leaked)
     obs['mutation_through_clone_reaches_original'] = leaked
+    # a SECOND clone of the same original, taken after the first clone was edited all over: again a new object with the
+    # original's tree, sharing nothing with the first clone (nor with the original)
+    r2 = call(lambda: o.clone())
+    if r2[0] != 'ok':
+        obs['second_clone'] = list(r2)
+    else:
+        ids_c = {id(n) for n in nc} | {id(n._subformula) for n in nc if not is_leaf(n)} | ids_o
+        n2c = nodes_of(r2[1])
+        obs['second_clone'] = [r2[1] is not c and r2[1] is not o, call(lambda: tree_of(r2[1]))[1] == f,
+                               not any(id(n) in ids_c or (not is_leaf(n) and id(n._subformula) in ids_c) for n in n2c),
+                               call(lambda: r2[1] == o)[1], call(lambda: hash(r2[1]) == hash(o))[1]]
     # and the other way round on a fresh pair
     o2 = mk(f, L)
     c2 = o2.clone()
@@ -230,7 +271,7 @@ def impl_clone(Ln, f, raw=False):
     # wrap_subformulas) is still a formula: it must be == to, hash like and collide in sets/dicts with a freshly built
     # formula of its CURRENT tree (a hash remembered from before the edit would break this)
     inco = []
-    for route in ('rename', 'wrap'):
+    for route in ('rename', 'wrap', 'slot', 'append'):
         o3 = build(f, L)
         hash(o3), {o3: 1}, str(o3)
         for n in nodes_of(o3):
@@ -241,6 +282,24 @@ def impl_clone(Ln, f, raw=False):
             if not leaves:
                 continue
             leaves[-1].name = leaves[-1].name + '_r'
+        elif route in ('slot', 'append'):
+            # through the live list that the public subformulas() returns: a leaf operand of the last operator node that has one
+            # is overwritten by a new atom (leaf for leaf: the formula stays in its logic) / an operand is appended to an or / and
+            ops_ = [(p_, g_) for p_, g_ in positions(f) if g_[0] not in ('true', 'false', 'ap')
+                    and (any(x[0] in ('true', 'false', 'ap') for x in g_[1:]) if route == 'slot' else (g_[0] in NARY and len(g_) == 3))]
+            if not ops_:
+                continue
+            p_, g_ = ops_[-1]
+            n_ = o3
+            for i_ in p_:
+                n_ = n_.subformulas()[i_]
+            if route == 'slot':
+                k_ = max(k for k, x in enumerate(g_[1:]) if x[0] in ('true', 'false', 'ap'))
+                n_.subformulas()[k_] = _marker(n_)
+                want = replace_at(f, p_, g_[:k_ + 1] + (('ap', 'zz_marker'),) + g_[k_ + 2:])
+            else:
+                n_.subformulas().append(_marker(n_))
+                want = replace_at(f, p_, g_ + (('ap', 'zz_marker'),))
         else:
             if is_leaf(o3) or len(o3._subformula) < 2:
                 continue
@@ -258,6 +317,18 @@ def impl_clone(Ln, f, raw=False):
               call(lambda: len({o3, g3}) == 1)[1], call(lambda: {g3: 1}.get(o3) == 1)[1], call(lambda: o3 in {g3})[1]]
         if co != [True] * 6:
             inco.append([route, co])
+            continue
+        # its clone is a formula of the CURRENT tree, equal to it; a fresh formula of the FORMER tree no longer is
+        c3 = call(lambda: o3.clone())
+        co = [c3[0]] if c3[0] != 'ok' else [call(lambda: tree_of(c3[1]))[1] == t3, call(lambda: c3[1] == o3)[1], call(lambda: o3 == c3[1])[1],
+                                            call(lambda: hash(c3[1]) == hash(o3))[1]]
+        if co != [True] * 4:
+            inco.append([route, 'clone of the edited formula: has the current tree, clone == edited, edited == clone, hashes equal', co])
+        if t3 != f:
+            h3 = build(f, L)
+            co = [call(lambda: o3 == h3)[1], call(lambda: h3 == o3)[1], call(lambda: len({o3, h3}))[1]]
+            if co != [False, False, 2]:
+                inco.append([route, 'against a fresh formula of the former tree: ==, reversed ==, len(set)', co])
     obs['edited_formula_incoherent'] = inco
     return obs
 
@@ -265,7 +336,236 @@ def impl_clone(Ln, f, raw=False):
 def clone_expected(Ln, f):
     return {'clone': 'ok', 'tree': f, 'langs': [Ln], 'same_classes': True, 'eq': [True, True, True], 'is_new_object': True,
             'shared_node_positions': [], 'shared_leaves_only': False, 'mutation_through_clone_reaches_original': [],
-            'mutation_of_original_reaches_clone': [], 'edited_formula_incoherent': []}
+            'mutation_of_original_reaches_clone': [], 'edited_formula_incoherent': [], 'second_clone': [True] * 5}
+
+
+# ----------------------------------------------------------------------------------------
+# life cycles: a small heap of formula objects under clone / edit, audited after every step
+# ----------------------------------------------------------------------------------------
+LIFE_HEAP = 5
+LIFE_INEFFECTIVE = [0]
+
+
+def subtree(f, path):
+    for i in path:
+        f = f[i + 1]
+    return f
+
+
+def node_at(o, path):
+    for i in path:
+        o = o.subformulas()[i]
+    return o
+
+
+def small_of(rng, L, atoms):
+    """a small formula that may stand as an operand somewhere in a formula of L (membership is checked by the caller)"""
+    r = rng.random()
+    if r < 0.45:
+        return ('ap', rng.choice(atoms))
+    if r < 0.6:
+        return (rng.choice(('true', 'false')),)
+    return rand_of(rng, L, rng.randint(1, 2), atoms)
+
+
+def gen_edit(rng, L, t, i, atoms):
+    """one in-place edit of heap object i (tree t) -> (op, new tree) or None; the new tree stays in the logic L"""
+    pos = list(positions(t))
+    for _ in range(12):
+        path, g = rng.choice(pos)
+        tag = g[0]
+        if tag == 'ap':
+            new = rng.choice([a for a in atoms if a != g[1]])
+            op, ng = ('rename', i, path, new), ('ap', new)
+        elif tag in ('true', 'false'):
+            continue                      # a Bool has no public way of being edited in place (it can be replaced: 'slot')
+        else:
+            kind = rng.choice(('slot', 'slot', 'wrap', 'grow', 'shrink'))
+            n = len(g) - 1
+            if kind == 'slot':
+                k = rng.randrange(n)
+                new = near_miss(rng, g[k + 1], 'CTLS', atoms) if rng.random() < 0.4 else small_of(rng, L, atoms)
+                if new is None or new == g[k + 1]:
+                    continue
+                op, ng = ('slot', i, path, k, new), g[:k + 1] + (new,) + g[k + 2:]
+            elif kind == 'wrap' and n >= 2:
+                perm = list(range(n))
+                while perm == list(range(n)):
+                    rng.shuffle(perm)
+                op, ng = ('wrap', i, path, tuple(perm)), (tag,) + tuple(g[p + 1] for p in perm)
+            elif kind == 'grow' and tag in NARY and n == 2:
+                new = small_of(rng, L, atoms)
+                op, ng = ('grow', i, path, new), g + (new,)
+            elif kind == 'shrink' and tag in NARY and n == 3:
+                op, ng = ('shrink', i, path), g[:-1]
+            else:
+                continue
+        nt = replace_at(t, path, ng)
+        if pymember(L, nt):
+            return op, nt
+    return None
+
+
+def gen_life(rng, L, f, nops, atoms, prefix=()):
+    """a script of clone / edit steps over a heap that starts as [f]; generated on trees only (independent of the library)"""
+    shadow = [f]
+    ops = []
+    for op in prefix:
+        ops.append(op)
+        shadow.append(shadow[op[1]])
+    tries = 0
+    while len(ops) < nops and tries < 4 * nops:
+        tries += 1
+        i = rng.randrange(len(shadow))
+        r = rng.random()
+        if r < 0.3 and len(shadow) < LIFE_HEAP:
+            ops.append(('clone', i))
+            shadow.append(shadow[i])
+        elif r < 0.4 and len(shadow) < LIFE_HEAP and fheight(shadow[i]) >= 1:
+            path, g = rng.choice([pg for pg in positions(shadow[i]) if pg[0]])
+            if pymember(L, g):
+                ops.append(('clonesub', i, path))
+                shadow.append(g)
+        else:
+            e = gen_edit(rng, L, shadow[i], i, atoms)
+            if e is not None:
+                ops.append(e[0])
+                shadow[i] = e[1]
+    return tuple(ops)
+
+
+def life_apply(M, heap, shadow, op):
+    """apply one step to the objects and to the shadow trees -> index of the edited object (or None for clone steps); edits use the
+    public surface only: the `name` of an atom, the list returned by subformulas() (slot overwritten, operand appended / popped) and
+    wrap_subformulas()"""
+    kind, i = op[0], op[1]
+    if kind == 'clone':
+        heap.append(heap[i].clone())
+        shadow.append(shadow[i])
+        return None
+    if kind == 'clonesub':
+        heap.append(node_at(heap[i], op[2]).clone())
+        shadow.append(subtree(shadow[i], op[2]))
+        return None
+    path = op[2]
+    n = node_at(heap[i], path)
+    g = subtree(shadow[i], path)
+    if kind == 'rename':
+        n.name = op[3]
+        ng = ('ap', op[3])
+    elif kind == 'slot':
+        k, new = op[3], op[4]
+        n.subformulas()[k] = build(new, M)               # the public accessor returns the live operand list
+        ng = g[:k + 1] + (new,) + g[k + 2:]
+    elif kind == 'wrap':
+        kids = list(n.subformulas())
+        n.wrap_subformulas([kids[p] for p in op[3]], M.Formula)
+        ng = (g[0],) + tuple(g[p + 1] for p in op[3])
+    elif kind == 'grow':
+        n.subformulas().append(build(op[3], M))
+        ng = g + (op[3],)
+    elif kind == 'shrink':
+        n.subformulas().pop()
+        ng = g[:-1]
+    else:
+        raise ValueError(kind)
+    if kind in ('slot', 'grow', 'shrink') and tree_of(heap[i]) == shadow[i]:
+        return 'ineffective'              # subformulas() handed out a copy: nothing was edited (not the case in the library as it is)
+    shadow[i] = replace_at(shadow[i], path, ng)
+    return i
+
+
+def _ids(o):
+    s = set()
+    for n in nodes_of(o):
+        s.add(id(n))
+        if not is_leaf(n):
+            s.add(id(n._subformula))
+    return s
+
+
+def life_audit(M, heap, shadow, edited=None, former=None):
+    """every object of the heap must BE its shadow tree: same tree (no edit leaked from another object), ==, hash, set and dict
+    behaviour of a freshly built formula of that tree; two heap objects are == exactly when their trees are, and share no
+    node; an edited object is no longer == to a fresh formula of its former tree -> list of problems"""
+    bad = []
+    for i, (o, t) in enumerate(zip(heap, shadow)):
+        r = call(lambda: tree_of(o))
+        if r != ('ok', t):
+            bad.append(['object %d does not have the tree its history gives it' % i, list(r) if r[0] == 'err' else r[1], t])
+    if bad:
+        return bad
+    for i, (o, t) in enumerate(zip(heap, shadow)):
+        g = build(t, M)
+        co = [call(lambda: o == g)[1], call(lambda: g == o)[1], call(lambda: o != g)[1], call(lambda: hash(o) == hash(g))[1],
+              call(lambda: len({o, g}))[1], call(lambda: {g: 1}.get(o))[1], call(lambda: {o: 1}.get(g))[1], call(lambda: g in [o])[1]]
+        if co != [True, True, False, True, 1, 1, 1, True]:
+            bad.append(['object %d against a fresh formula of its current tree: ==, reversed ==, !=, hash equal, len(set), dict hit, reversed dict hit, in list' % i, co])
+        if i == edited and former != t:
+            h = build(former, M)
+            co = [call(lambda: o == h)[1], call(lambda: h == o)[1], call(lambda: len({o, h}))[1], call(lambda: {h: 1}.get(o))[1]]
+            if co != [False, False, 2, None]:
+                bad.append(['edited object %d against a fresh formula of its FORMER tree: ==, reversed ==, len(set), dict hit' % i, co])
+    ids = [_ids(o) for o in heap]
+    for i in range(len(heap)):
+        for j in range(i + 1, len(heap)):
+            a, b = heap[i], heap[j]
+            same = shadow[i] == shadow[j]
+            co = [call(lambda: a == b)[1], call(lambda: b == a)[1], call(lambda: len({a, b}))[1]]
+            if co != [same, same, 1 if same else 2] or (same and call(lambda: hash(a) == hash(b))[1] is not True):
+                bad.append(['objects %d and %d (same tree: %s): ==, reversed ==, len(set)' % (i, j, same), co])
+            if a is b:
+                bad.append(['objects %d and %d are ONE object (a clone that is not a new object)' % (i, j)])
+            elif ids[i] & ids[j]:
+                bad.append(['objects %d and %d share a node' % (i, j)])
+    # every node is hashed / printed / used as a key, so that whatever can be remembered is remembered before the next edit
+    for o in heap:
+        for n in nodes_of(o):
+            hash(n), str(n), {n: 1}, n == n
+    return bad
+
+
+def impl_life(Ln, f, ops, raw=False):
+    """-> (None | {'step', 'op', 'problems', 'heap'}, number of steps run)"""
+    M = lang_module(Ln)
+    heap, shadow = [(build_raw if raw else build)(f, M)], [f]
+    ineffective = LIFE_INEFFECTIVE
+    bad = life_audit(M, heap, shadow)
+    if bad:
+        return {'step': -1, 'op': None, 'problems': bad, 'heap': [fstr(t) for t in shadow]}, 0
+    for k, op in enumerate(ops):
+        former = shadow[op[1]]
+        r = call(lambda: life_apply(M, heap, shadow, op))
+        if r[0] == 'err':
+            return {'step': k, 'op': op, 'problems': [['the step raised', r[1]]], 'heap': [fstr(t) for t in shadow]}, k
+        if r[1] == 'ineffective':
+            ineffective[0] += 1
+        bad = life_audit(M, heap, shadow, edited=r[1] if isinstance(r[1], int) else None, former=former)
+        if bad:
+            return {'step': k, 'op': op, 'problems': bad, 'heap': [fstr(t) for t in shadow]}, k
+    return None, len(ops)
+
+
+def check_lives(R, J, items, tag):
+    """items: (L, f, ops)"""
+    for (L, f, ops) in sorted(items, key=lambda it: fsize(it[1]) + len(it[2])):
+        R.evaluations += 1
+        raw = (R.evaluations % 2 == 0) and f[0] not in ('true', 'false', 'ap')
+        try:
+            res, steps = impl_life(L, f, ops, raw=raw)
+        except Exception as e:  # noqa  (on a correct library no audit step can fail)
+            res, steps = {'step': None, 'op': None, 'problems': [['the audit raised', '%s: %s' % (type(e).__name__, ' '.join(str(e).split())[:160])]]}, 0
+        if res is not None:
+            k = res['step']
+            J.bad('after a clone / in-place edit history a formula object no longer behaves (==, hash, keys, clone) as the formula of its current tree',
+                  {'kind': 'life', 'lang': L, 'tree': f, 'tree_str': fstr(f), 'ops': list(ops[:k + 1] if isinstance(k, int) else ops),
+                   'built_from_raw_operands': raw, 'impl': res, 'stream': tag})
+        else:
+            R.count('lives_' + tag)
+            R.count('life_steps', steps)
+            for op in ops:
+                R.count('life_op_' + op[0])
+            R.nontriv(('life', L, f, ops))
 
 
 # ----------------------------------------------------------------------------------------
@@ -348,21 +648,22 @@ def check_prints(R, J, items):
     return table
 
 
-def check_pairs(R, J, L, pairs, tag):
-    """pairs of trees of ONE logic L; tag 'rawcopy': the second object is built from raw str / bool operands"""
-    raw = tag == 'rawcopy'
-    if tag in ('copy', 'rawcopy', 'nearmiss'):
+def check_pairs(R, J, L, pairs, tag, model=True):
+    """pairs of trees of ONE logic L; tag 'rawcopy' / 'u-rawcopy': the second object is built from raw str / bool operands;
+    model=False (atoms outside the model's `good` predicate: non-ASCII identifiers): judged by tree equality alone"""
+    raw = tag.endswith('rawcopy')
+    if tag.split('-')[-1] in ('copy', 'rawcopy', 'nearmiss'):
         pairs = sorted(pairs, key=lambda fg: fsize(fg[0]) + fsize(fg[1]))   # the smallest failing case is recorded first
     cmds = []
     for f, g in pairs:
         cmds.append(['eq', [L, fsx(f)], [L, fsx(g)]])
         cmds.append(['eq', [L, fsx(g)], [L, fsx(f)]])
-    outs = model_batch_parallel(cmds)
+    outs = model_batch_parallel(cmds) if model else None
     for i, (f, g) in enumerate(pairs):
         R.evaluations += 1
         same = (f == g)
-        m_fg, m_gf = outs[2 * i] == '1', outs[2 * i + 1] == '1'
-        if m_fg != same or m_gf != same:
+        m_fg, m_gf = (outs[2 * i] == '1', outs[2 * i + 1] == '1') if model else (None, None)
+        if model and (m_fg != same or m_gf != same):
             raise RuntimeError('C11 machinery: model eq_obj disagrees with tree equality on good formulas (contradicts C11_eq_iff_tree): %s %s %s' % (L, fstr(f), fstr(g)))
         obs = impl_pair(L, f, L, g, raw=raw)
         exp = expected_pair(same)
@@ -374,16 +675,17 @@ def check_pairs(R, J, L, pairs, tag):
         if diff:
             J.bad('equality / hashing of two %s formulas is not coherent with tree equality: %s' % (L, ','.join(diff)),
                   {'kind': 'pair', 'lang': L, 'f': f, 'g': g, 'f_str': fstr(f), 'g_str': fstr(g), 'same_tree': same,
-                   'impl': obs, 'model_eq': [m_fg, m_gf], 'expected': exp, 'differs': diff, 'g_built_from_raw_operands': raw})
+                   'impl': obs, 'model_eq': [m_fg, m_gf], 'expected': exp, 'differs': diff, 'g_built_from_raw_operands': raw,
+                   'model_free': not model})
             continue
         R.count('pairs_%s_%s' % (tag, 'equal' if same else 'unequal'))
         if not same and obs['hash_equal'] is True:
             R.count('hash_collisions_of_unequal_formulas(permitted)')
         if same and fheight(f) >= 1:
             R.nontriv(('pair-eq', L, f))
-        elif tag == 'nearmiss':
+        elif tag.endswith('nearmiss'):
             R.nontriv(('pair-near', L, f, g))
-            if fheight(f) >= 2 and R.cov.get('samples_' + L, 0) < 2:
+            if tag == 'nearmiss' and fheight(f) >= 2 and R.cov.get('samples_' + L, 0) < 2:
                 R.count('samples_' + L)
                 R.sample({'logic': L, 'f': fstr(f), 'g': fstr(g), 'f == g': obs['eq_fg'], 'len({f,g})': obs['set_len']}, limit=8)
 
@@ -425,7 +727,7 @@ def check_clones(R, J, items):
             diff = [k for k in exp if obs.get(k) != exp[k]]
             real = any(k in diff for k in ('clone', 'tree', 'langs', 'same_classes', 'eq', 'is_new_object',
                                             'mutation_through_clone_reaches_original', 'mutation_of_original_reaches_clone',
-                                            'edited_formula_incoherent'))
+                                            'edited_formula_incoherent', 'second_clone'))
             J.bad(('a formula edited after being hashed is ==, but does not hash/collide like, a fresh formula with the same tree'
                    if diff == ['edited_formula_incoherent'] else 'clone() is not an equal, independent copy: %s' % ','.join(diff)),
                   {'kind': 'clone', 'lang': L, 'tree': f, 'tree_str': fstr(f), 'built_from_raw_operands': raw, 'impl': obs, 'expected': exp, 'differs': diff},
@@ -434,6 +736,10 @@ def check_clones(R, J, items):
             R.count('clones')
             if fheight(f) >= 1:
                 R.nontriv(('clone', L, f))
+
+
+def _some(rng, xs, n):
+    return rng.sample(xs, min(len(xs), n))
 
 
 def run(R):
@@ -450,8 +756,19 @@ def run(R):
               'enumeration over {AX, true} (thorough, worker processes), sampled pairs of the depth <= 2 enumeration and of random formulas of depth <= 5 with '
               'ternary and/or, each formula also paired with a separately built copy, with a copy built from RAW str/bool operands and the &,|,~ operators, and with a one-edit near miss (atom renamed, operands swapped, '
               'operator swapped, (a or b or c) regrouped, operand duplicated); triples = {f, copy, near miss} permutations; every formula printed (str, repr) '
-              'against the model printer in every module that can hold it; every formula cloned, id walk + mutation of every node; '
-              'non-trivial = equal pair of distinct objects of height >= 1, near-miss pair, triple with a repeated tree, clone of height >= 1, CTL compact print')
+              'against the model printer in every module that can hold it; every formula cloned, id walk + mutation of every node, then cloned a '
+              'second time (new object, original tree, nothing shared with the first clone); every formula hashed and then edited in place by each of: '
+              'atom renamed, wrap_subformulas (operands reversed), leaf operand overwritten in / operand appended to the live list returned by '
+              'subformulas() -> the edited object, its clone() and a fresh formula of its current tree are ==, hash alike and are one set/dict key, a fresh '
+              'formula of the former tree is not; MODEL-FREE (tree equality) stream over non-ASCII identifier atoms and ASCII look-alikes ('
+              + ', '.join(UATOMS) + '): all ordered atom pairs bare and under one operator, random formulas of depth <= 4 with at least one non-ASCII atom: '
+              'random pairs, copies, raw copies, near misses, two-atom exchanges, triples, clones, all as keys of one dict; life-cycle scripts of 4-9 steps '
+              '(clone, clone of a subformula, rename, slot overwrite / append / pop through subformulas(), wrap_subformulas with permuted operands; every edit keeps the '
+              'formula in its logic) over a heap of <= %d objects grown from one formula of height 1-3 (half start with two clones of the same object), '
+              'audited after every step: each object against a fresh build of its shadow tree (tree, ==, hash, set, dict) and of its former tree, all object pairs '
+              '(== iff same shadow tree, hash, no shared node); ' % LIFE_HEAP +
+              'non-trivial = equal pair of distinct objects of height >= 1, near-miss pair, triple with a repeated tree, clone of height >= 1, CTL compact print, '
+              'life-cycle script that ran to its end')
     small_leaves = [('ap', 'p'), ('ap', 'AX'), ('true',), ('false',), ('ap', 'True'), ('ap', 'False')]
     ap_leaves = [('ap', 'AX'), ('true',)]
     pool1 = {L: enum_logic(L, 1, small_leaves) for L in LANGS}
@@ -609,6 +926,68 @@ def run(R):
         across['same_tree_but_unequal(CTL compact notation)'] += (f == g and obs['eq_fg'] is not True)
     R.cov['across_languages_informational'] = dict(across)
     mark('across')
+    # ---- non-ASCII identifier atoms: model-free (tree equality), pairs / triples / clones ---
+    uleaves = [('ap', a) for a in UATOMS]
+    for L in LANGS:
+        M = lang_module(L)
+        # all ordered pairs of the atoms themselves and of one operator over them
+        op1 = 'not' if L == 'PL' else 'X'
+        check_pairs(R, J, L, [(f, g) for f in uleaves for g in uleaves], 'u-atoms', model=False)
+        check_pairs(R, J, L, [((op1, f), (op1, g)) for f in uleaves for g in uleaves], 'u-atoms', model=False)
+        urand, seen = [], set()
+        while len(urand) < (1500 if R.thorough else 150):
+            f = rand_of(rng, L, rng.randint(1, 4), UATOMS)
+            if f not in seen and pymember(L, f) and any(not a.isascii() for a in atoms_of(f)):
+                seen.add(f)
+                urand.append(f)
+        rand['u' + L] = urand
+        check_pairs(R, J, L, [(rng.choice(urand), rng.choice(urand)) for _ in range(len(urand))], 'u-random', model=False)
+        check_pairs(R, J, L, [(f, f) for f in urand], 'u-copy', model=False)
+        check_pairs(R, J, L, [(f, f) for f in urand if fheight(f) >= 1], 'u-rawcopy', model=False)
+        nm = []
+        for f in urand:
+            # near misses: one edit, and the same formula with two of its atoms exchanged / one atom replaced by a look-alike
+            g = near_miss(rng, f, L, UATOMS)
+            if g is not None:
+                nm.append((f, g))
+            ats = sorted(atoms_of(f))
+            a = rng.choice(ats)
+            b = rng.choice([x for x in UATOMS if x != a])
+            g = rename_atoms(f, {a: b, b: a})
+            if g != f:
+                nm.append((f, g))
+        check_pairs(R, J, L, nm, 'u-nearmiss', model=False)
+        triples = []
+        for (f, g) in rng.sample(nm, min(len(nm), 60)):
+            triples += [(f, f, g), (f, g, f), (g, f, f), (f, g, rng.choice(urand))]
+        check_triples(R, J, L, triples)
+        check_clones(R, J, [(L, f) for f in uleaves[:8] + urand[:80 if not R.thorough else 600]])
+        # the formulas as keys of one dict
+        R.evaluations += 1
+        A, B = [build(f, M) for f in urand], [build(f, M) for f in urand]
+        d = {o: i for i, o in enumerate(A)}
+        if not (len(set(A + B)) == len(urand) and len(d) == len(urand) and all(d.get(o) == i for i, o in enumerate(B))):
+            badi = [i for i, o in enumerate(B) if d.get(o) != i][:3]
+            J.bad('formulas over non-ASCII identifier atoms of %s do not behave as %d distinct keys of a set / dict' % (L, len(urand)),
+                  {'kind': 'keys', 'lang': L, 'set_size': len(set(A + B)), 'expected': len(urand), 'first_wrong': [urand[i] for i in badi]})
+        else:
+            R.count('global_set_dict_checks')
+    R.cov['non_ascii_atoms'] = list(UATOMS)
+    mark('non-ascii')
+    # ---- life cycles: clone / edit scripts over a small heap of objects ------------------
+    lives = []
+    for L in LANGS:
+        small = [f for f in pool1[L] if fheight(f) >= 1]
+        src = rng.sample(small, min(len(small), 60 if R.thorough else 25)) + _some(rng, [f for f in rand[L] if 1 <= fheight(f) <= 3], 1500 if R.thorough else 150)
+        for n, f in enumerate(src):
+            # half of the scripts start by cloning the same object twice (then edits and further clones of originals and clones)
+            lives.append((L, f, gen_life(rng, L, f, rng.randint(4, 9), ATOMS, prefix=(('clone', 0), ('clone', 0)) if n % 2 else ())))
+        for f in _some(rng, [f for f in rand['u' + L] if 1 <= fheight(f) <= 3], 400 if R.thorough else 40):
+            lives.append((L, f, gen_life(rng, L, f, rng.randint(4, 9), UATOMS)))
+    check_lives(R, J, lives, 'script')
+    R.cov['life_edits_without_effect(subformulas() not live)'] = LIFE_INEFFECTIVE[0]
+    R.cov['life_script_lengths'] = dict(collections.Counter(len(o) for (_, _, o) in lives))
+    mark('lives')
     R.cov['section_wall_s'] = T
     for L in LANGS:
         R.cov.pop('samples_' + L, None)
@@ -625,10 +1004,13 @@ def replay(R, data):
     if kind == 'pair':
         f, g = detuple(d['f']), detuple(d['g'])
         obs = impl_pair(L, f, L, g, raw=bool(d.get('g_built_from_raw_operands')))
-        m = model_batch([['eq', [L, fsx(f)], [L, fsx(g)]], ['eq', [L, fsx(g)], [L, fsx(f)]], ['print', L, fsx(f)], ['print', L, fsx(g)]])
         exp = expected_pair(f == g)
         print('impl :', obs)
-        print('model: eq', m[0], m[1], 'print', repr(str(m[2])), repr(str(m[3])), ' tree equality:', f == g)
+        if d.get('model_free'):
+            print('model: - (atoms outside the model\'s `good` predicate: judged by tree equality alone)  tree equality:', f == g)
+        else:
+            m = model_batch([['eq', [L, fsx(f)], [L, fsx(g)]], ['eq', [L, fsx(g)], [L, fsx(f)]], ['print', L, fsx(f)], ['print', L, fsx(g)]])
+            print('model: eq', m[0], m[1], 'print', repr(str(m[2])), repr(str(m[3])), ' tree equality:', f == g)
         if any(obs[k] != exp[k] for k in exp) or (f == g and obs['hash_equal'] is not True):
             R.violation('replayed', d)
     elif kind == 'triple':
@@ -650,6 +1032,14 @@ def replay(R, data):
         print('impl    :', obs)
         print('expected:', exp)
         if obs != exp:
+            R.violation('replayed', d)
+    elif kind == 'life':
+        f, ops = detuple(d['tree']), detuple(d['ops'])
+        res, steps = impl_life(L, f, ops, raw=bool(d.get('built_from_raw_operands')))
+        print('script  :', ops)
+        print('impl    :', res if res is not None else 'every object behaves as the formula of its current tree after each of the %d steps' % steps)
+        print('expected: every object behaves as the formula of its current tree after each step (model-free: tree equality)')
+        if res is not None:
             R.violation('replayed', d)
     elif kind == 'bool':
         o = lang_module(L).Bool(d['b'])
